@@ -182,7 +182,7 @@ func checkC04(p *Program, r *Result) {
 					targets = append(targets, x)
 				}
 			case *ast.AssignStmt:
-				if site.meth == "loadChunk" && len(x.Lhs) == 1 && len(x.Rhs) == 1 && strings.HasSuffix(types.ExprString(x.Lhs[0]), ".messageIndexes") {
+				if site.meth == "loadChunk" && len(x.Lhs) == 1 && len(x.Rhs) == 1 && strings.HasSuffix(types.ExprString(x.Lhs[0]), "."+p.roles().qField) {
 					if ce, ok := x.Rhs[0].(*ast.CallExpr); ok && g.isBuiltin(ce, "append") {
 						targets = append(targets, x)
 					}
@@ -359,7 +359,7 @@ func checkReadOptions(p *Program, r *Result) {
 			for _, f := range frontier {
 				for _, ci := range callsIn(f, func(ssa.CallInstruction) bool { return true }) {
 					g := ci.Common().StaticCallee()
-					if g == nil || g.Blocks == nil || !p.isRepoFunc(g) || region[g] || strings.HasPrefix(funcName(g), "mcap.ReadOptions.") {
+					if g == nil || g.Blocks == nil || !p.isRepoFunc(g) || region[g] || (strings.HasPrefix(funcName(g), "mcap.ReadOptions.") && ast.IsExported(g.Name())) {
 						continue
 					}
 					passes := false
